@@ -48,6 +48,11 @@ pub struct Timing {
     /// sequence is correct") or when a command names a block beyond the card
     #[serde(default)]
     pub sticky_status: bool,
+    /// the card makes use of N_WR (minimum 1 byte, timing table of the SPI chapter): it does not
+    /// look for a data token in the byte slot that directly follows its response to the write
+    /// command, nor in the one that directly follows the end of its busy signal
+    #[serde(default)]
+    pub nwr_gap: bool,
 }
 
 #[derive(Clone, Debug, Serialize, Deserialize, PartialEq)]
@@ -204,6 +209,8 @@ pub struct CardInner {
     last_write_failed: bool,
     /// error bits of the status register (second byte of R2) waiting to be read
     sticky: u8,
+    /// the next byte slot in which the card neither answers nor signals busy is its N_WR slot
+    nwr_pending: bool,
     // monitor
     pub viol: Vec<String>,
     pub cmd_log: Vec<(u8, u32)>,
@@ -281,6 +288,7 @@ impl SimCard {
             write_addr: 0,
             last_write_failed: false,
             sticky: 0,
+            nwr_pending: false,
             viol: Vec::new(),
             cmd_log: Vec::new(),
             monitor_on: true,
@@ -618,6 +626,7 @@ impl CardInner {
                     self.write_addr = b;
                     self.respond(&[0x00]);
                     self.rx = Rx::DataToken { multi: cmd == 25 };
+                    self.nwr_pending = self.timing.nwr_gap;
                     if cmd == 25 {
                         self.multi_writes_seen += 1;
                     }
@@ -676,6 +685,7 @@ impl CardInner {
         self.busy = self.timing.busy_write as u32;
         if multi {
             self.rx = Rx::DataToken { multi: true };
+            self.nwr_pending = self.timing.nwr_gap;
         } else {
             self.rx = Rx::Command;
             self.single_writes_done += 1;
@@ -729,6 +739,7 @@ impl CardInner {
         }
         // what the card drives during this byte is decided before it has seen the byte
         let was_busy = self.busy > 0 && self.out.is_empty();
+        let answering = !self.out.is_empty();
         let miso = if let Some(b) = self.out.pop_front() {
             if b & 0x100 != 0 && self.frame.is_empty() && mosi == 0xFF {
                 // the host is reading this corrupted byte (not talking over it with a command)
@@ -795,6 +806,16 @@ impl CardInner {
                 if mosi != 0xFF {
                     self.v(format!("byte {:#04x} (token?) sent while the card was signalling busy", mosi));
                 }
+            }
+            Rx::DataToken { .. } if answering => {
+                // the host is clocking the card's response in
+                if mosi != 0xFF {
+                    self.v(format!("byte {:#04x} sent while the card was answering", mosi));
+                }
+            }
+            Rx::DataToken { .. } if self.nwr_pending => {
+                // the N_WR slot: whatever the host sends here is not looked at
+                self.nwr_pending = false;
             }
             Rx::DataToken { multi } => {
                 match mosi {
